@@ -32,3 +32,8 @@ func VerifC07FetchBlob(input OmegaInput) ([]byte, bool) {
 	}
 	return val, true
 }
+
+// VerifC07Heap reads the unexported heap pointer of an inner machine's memory; VerifC07NewMemory builds an empty
+// guest memory (heap pointer and limit 0) for the outer machine of the inner-machine stream.
+func VerifC07Heap(m *Memory) uint64 { return m.heapPointer }
+func VerifC07NewMemory() *Memory    { return &Memory{Pages: make(map[uint32]*Page)} }
